@@ -13,7 +13,7 @@ META = {
 }
 
 QUICK = {"function": 24, "data": 6, "points": 200}
-THOROUGH = {"function": 400, "data": 100, "points": 200}
+THOROUGH = {"function": 240, "data": 60, "points": 200}
 
 # small fixed witnesses of front-end forms that the random programs avoid (each has its own key)
 FORMS = [
